@@ -92,4 +92,7 @@ func TestC03(t *testing.T) {
 }
 
 // TestC03Large: see heldBackHistories.
-func TestC03Large(t *testing.T) { runHeldBack(t, hC03, "TestC03", propC03) }
+func TestC03Large(t *testing.T) {
+	runHeldBack(t, hC03, "TestC03", propC03)
+	runLongEvents(t, hC03, "TestC03", propC03)
+}
